@@ -152,7 +152,7 @@ def mc(module, cfgfile, must_fire=(), workers=None, timeout=1800, xmx='8g', extr
         raise Infra('TLC failed on %s:\n%s' % (module, out[-3000:]))
     # action coverage: lines like  <Submit line 12, col 1 to line 14, col 30 of module X>: 12:345
     cov = {}
-    for m in re.finditer(r'^<(\w+) line \d+, col \d+ to line \d+, col \d+ of module \w+>: (\d+):(\d+)', out, re.M):
+    for m in re.finditer(r'^<(\w+) line \d+, col \d+ to line \d+, col \d+ of module \w+(?: \([\d ]+\))?>: (\d+):(\d+)', out, re.M):
         cov[m.group(1)] = cov.get(m.group(1), 0) + int(m.group(3))
     st['action_cov'] = cov
     missing = [a for a in must_fire if cov.get(a, 0) == 0 and cov.get(a[1:], 0) == 0]
